@@ -234,14 +234,14 @@ Toks(m) == Concat([i \in 1..Len(m.decls) |-> DeclToks(m.decls[i])])
 
 (***************************************************************************)
 (* Canonical form of a written token list: hints dropped, a comma directly *)
-(* before a closing bracket or brace dropped, adjacent string pieces       *)
-(* merged.                                                                 *)
+(* before a closing bracket, brace or parenthesis dropped, adjacent string *)
+(* pieces merged.                                                          *)
 (***************************************************************************)
 RECURSIVE CanonFrom(_, _)
 CanonFrom(ts, i) ==
     IF i > Len(ts) THEN <<>>
     ELSE LET t == TokAbs(ts[i]) IN
-         IF t = P(",") /\ i < Len(ts) /\ TokAbs(ts[i + 1]) \in {P("]"), P("}")} THEN CanonFrom(ts, i + 1)
+         IF t = P(",") /\ i < Len(ts) /\ TokAbs(ts[i + 1]) \in {P("]"), P("}"), P(")")} THEN CanonFrom(ts, i + 1)
          ELSE IF t.k = "str" /\ i < Len(ts) /\ ts[i + 1].k = "str"
               THEN CanonFrom([ts EXCEPT ![i + 1] = StrTok(t.bytes \o ts[i + 1].bytes)], i + 1)
          ELSE <<t>> \o CanonFrom(ts, i + 1)
